@@ -245,6 +245,10 @@ theorem exact_writeText (c : Ctx) (s : Str) (fold pre : Bool) : Exact c (writeTe
     to write a text field, both output versions, every column -/
 theorem exact_writeChar (c : Ctx) (s : Str) (q allowText : Bool) (h0 : (0 : CU) ∉ s) (h13 : (13 : CU) ∉ s) :
     Exact c (writeChar c s q allowText) := by
+  rcases Lemmas.WriterChar.writeChar_cases c s q allowText with ⟨e, _⟩ | ⟨e, _⟩ | ⟨e, _⟩
+  · rw [e]; exact exact_error _ _
+  · rw [e]; exact exact_error _ _
+  rw [e]
   by_cases hv : c.isCif1 = true ∧ validate11 s = false
   · rw [Lemmas.WriterChar.writeChar_invalid c s q allowText hv]; exact exact_error _ _
   obtain ⟨hdel, hlen⟩ := Lemmas.WriterChar.analyze_delim s (!q) (!c.isCif1) LINE
